@@ -439,11 +439,11 @@ def build_project(seed):
     elif r < 0.28:
         ad, rel = pr, "same"
     elif r < 0.46:
-        ad, rel = os.path.join(pr_norm, rng.choice(["gen", "generated/iso", "deep/er/out"])), "below"
+        ad, rel = os.path.join(pr_norm, rng.choice(["gen", "generated/iso", "deep/er/out", ".generated", ".iso/out", "..gen"])), "below"
     elif r < 0.60 and pr_norm != ".":
         ad, rel = os.path.dirname(pr_norm) or ".", "above"
     elif r < 0.78:
-        ad, rel = rng.choice(["generated", "build/iso"]), "sibling"
+        ad, rel = rng.choice(["generated", "build/iso", ".cache/iso"]), "sibling"
     elif r < 0.90:
         ad, rel = rng.choice(["../shared/gen", "../generated"]), "outside"
     else:
